@@ -1,3 +1,5 @@
+#![allow(unexpected_cfgs)]
+
 use std::{
     fs::File,
     io::{BufReader, Read},
@@ -16,6 +18,8 @@ pub fn parse_rpu_file<P: AsRef<Path>>(input: P) -> Result<Vec<DoviRpu>> {
     let mut reader = BufReader::new(rpu_file);
 
     let chunk_size = 100_000;
+    #[cfg(dovi_tool_verif)]
+    let chunk_size = verif_chunk_size(chunk_size);
     let mut main_buf = vec![0; chunk_size];
     let mut chunk = Vec::with_capacity(chunk_size);
     let mut end = Vec::with_capacity(chunk_size);
@@ -134,4 +138,14 @@ pub fn parse_rpu_file<P: AsRef<Path>>(input: P) -> Result<Vec<DoviRpu>> {
             rpus.len()
         );
     }
+}
+
+/// Verification hook: overrides the read chunk size from the environment.
+#[cfg(dovi_tool_verif)]
+fn verif_chunk_size(default: usize) -> usize {
+    std::env::var("DOVI_TOOL_VERIF_CHUNK_SIZE")
+        .ok()
+        .and_then(|v| v.parse::<usize>().ok())
+        .filter(|v| *v > 0)
+        .unwrap_or(default)
 }
